@@ -328,7 +328,8 @@ class Model:
             if cwd is not None and self.exists(os.path.normpath(os.path.join(cwd, inc))):
                 p = os.path.normpath(os.path.join(cwd, inc))
             if p is None:
-                p = self.resolve_include("quote", inc, os.path.dirname(main), self.dirs)
+                # ... then along the include directories; never in the directory of the main file
+                p = self.resolve_include("angle", inc, os.path.dirname(main), self.dirs)
             if p is None:
                 self.events.append(("missing-forced", inc))
                 continue
